@@ -56,8 +56,9 @@ type MapV struct {
 	Ref  *Term            // Int identity, 0 = nil map
 	Dom  *Term            // Array K Bool
 	Val  map[string]*Term // leaf name -> Array K leafSort ("" for scalar values)
-	K    *Sort
-	Elem types.Type
+	K     *Sort
+	Elem  types.Type
+	Cands []*types.Func // maps of functions built from a literal: the functions that can be stored in it
 }
 
 type TupleV struct{ Vs []Value }
@@ -71,10 +72,11 @@ type IfaceV struct {
 
 // FuncV is a function value (closure or named function).
 type FuncV struct {
-	Name string
-	Id   *Term
-	Lit  *ast.FuncLit
-	Fc   *FnCtx // defining context (for closures)
+	Name  string
+	Id    *Term
+	Lit   *ast.FuncLit
+	Fc    *FnCtx        // defining context (for closures)
+	Cands []*types.Func // closed set of named functions this value can be (read from a literal map of functions)
 }
 
 func scalar(v Value) *Term {
@@ -214,7 +216,7 @@ func mergeValue(c *Term, a, b Value) Value {
 		if x == y {
 			return x
 		}
-		n := &MapV{Ref: Ite(c, x.Ref, y.Ref), Dom: Ite(c, x.Dom, y.Dom), Val: map[string]*Term{}, K: x.K, Elem: x.Elem}
+		n := &MapV{Ref: Ite(c, x.Ref, y.Ref), Dom: Ite(c, x.Dom, y.Dom), Val: map[string]*Term{}, K: x.K, Elem: x.Elem, Cands: x.Cands}
 		for k := range x.Val {
 			n.Val[k] = Ite(c, x.Val[k], y.Val[k])
 		}
@@ -241,7 +243,11 @@ func mergeValue(c *Term, a, b Value) Value {
 		if x == y {
 			return x
 		}
-		return &FuncV{Name: "?", Id: Ite(c, x.Id, y.Id)}
+		cands := x.Cands
+		if cands == nil {
+			cands = y.Cands
+		}
+		return &FuncV{Name: "?", Id: Ite(c, x.Id, y.Id), Cands: cands}
 	}
 	panic(fmt.Sprintf("merge: unsupported value %T", a))
 }
